@@ -2,7 +2,7 @@
     Only statements here; proofs are in Proofs/BuffersProofs.v.
     [grow] (allocation policy, only assumed to hand out at least what is asked: [grow_ok])
     and [junk] (contents of uninitialised memory) are universally quantified everywhere. *)
-From KV Require Import Bytes RustInt Buffers BuffersProofs.
+From KV Require Import Bytes RustInt Buffers BuffersProofs BuffersHttp1Link.
 Open Scope N_scope.
 
 (** WriteableBytes: for every constructor (new / with_capacity c / From<BytesMut> with any
@@ -18,6 +18,12 @@ Theorem writeable_from_any_buffer : forall grow junk (b : buf) (writes : list by
   exists w w' b', wb_from b = Ok w /\ wb_writes grow junk w writes = Ok w' /\ wb_into_inner w' = Ok b' /\
                   wf b' /\ contents b' = contents b ++ concat writes.
 Proof. exact wb_from_session_spec. Qed.
+
+(** ... and the counts [write] returns add up to the number of bytes handed in (what
+    [write_all], [io::copy] and the encoders rely on). *)
+Theorem writeable_counts : forall grow junk (c : wctor) (writes : list bytes),
+  grow_ok grow -> wb_session_n grow junk c writes = Ok (wctor_init c ++ concat writes, length (concat writes)).
+Proof. exact wb_session_n_spec. Qed.
 
 (** BytesCow::replace on an in-bounds range is the splice, for every body, spare capacity,
     replacement and both arithmetic modes. *)
@@ -42,6 +48,27 @@ Theorem replace_complete : forall grow junk (checked : bool) (b : buf) (s e : N)
   else cow_replace grow junk checked b s e rep = Panic.
 Proof. exact replace_total. Qed.
 
+(** The same on the [BytesCow] itself, in both representations ([Ref]: the slice is copied
+    into an exact-size [BytesMut] first; [Mut]: edited in place), the result being [Mut]. *)
+Theorem replace_both_representations : forall grow junk (checked : bool) (c : cow) (s e : N) (rep : bytes),
+  grow_ok grow -> cow_wf c -> fits_bytes (cow_bytes c) rep ->
+  if e <=? N.of_nat (length (cow_bytes c)) then
+    exists c', cow_replace_c grow junk checked c s e rep = Ok c' /\ cow_wf c' /\
+               cow_bytes c' = splice (N.to_nat (N.min s e)) (N.to_nat e) rep (cow_bytes c)
+  else cow_replace_c grow junk checked c s e rep = Panic.
+Proof. exact cow_replace_c_total. Qed.
+
+(** A chain of edits on the same [BytesCow] (one Present extension after the other) is the
+    chain of splices; it panics exactly when one of the splices is out of bounds. *)
+Theorem replace_chain_is_splice_chain : forall grow junk (checked : bool) (es : list edit) (c : cow),
+  grow_ok grow -> cow_wf c -> fits_edits (cow_bytes c) es ->
+  match splice_edits (cow_bytes c) es with
+  | Ok d => exists c', cow_edits grow junk checked c es = Ok c' /\ cow_wf c' /\ cow_bytes c' = d
+  | Panic => cow_edits grow junk checked c es = Panic
+  | Err _ => False
+  end.
+Proof. exact cow_edits_spec. Qed.
+
 (** read_to_end_or_max (repaired code), for every initial buffer, every stream and every
     chunking: the buffer afterwards is its old contents followed by a prefix [taken] of the
     stream, the reader keeps the rest, and either everything was taken or the buffer is at
@@ -62,6 +89,76 @@ Theorem read_with_failures : forall grow junk (b : buf) (cs : stream) (max : N),
   read_spec (contents b) cs max (read_to_end_or_max grow junk false b cs max).
 Proof. exact read_to_end_or_max_spec. Qed.
 
+(** The helper at the level of polls: the reader may answer [Pending] any number of times, and
+    the caller may drop the future at any of them ([patience = Some k]: at the [(k+1)]-th;
+    a timeout).  See [poll_spec]: a dropped future leaves the buffer well formed, holding its
+    old contents followed by exactly the bytes delivered up to that point -- nothing else --
+    and the reader keeps everything behind that point; every other answer obeys [read_spec]. *)
+Theorem read_cancel_safe : forall grow junk (b : buf) (cs : stream) (max : N) (patience : option nat),
+  grow_ok grow -> wf b ->
+  poll_spec (contents b) cs max patience (read_poll grow junk false true b cs max patience).
+Proof. exact read_poll_spec. Qed.
+
+(** A caller that awaits to the end is never told "cancelled", and for it the drop guard is invisible. *)
+Theorem read_awaited : forall grow junk (legacy : bool) (b : buf) (cs : stream) (max : N),
+  (forall guard b' rest, read_poll grow junk legacy guard b cs max None <> RCancelled b' rest) /\
+  read_poll grow junk legacy false b cs max None = read_poll grow junk legacy true b cs max None.
+Proof. exact read_awaited_lemma. Qed.
+
+(** The code before the drop guard: every cancellation leaves the buffer's length at its capacity,
+    and behind the bytes delivered so far the caller sees at least one byte that nobody wrote. *)
+Theorem unguarded_cancel_shows_junk : forall grow junk (b : buf) (cs : stream) (max : N) (patience : option nat) b' rest,
+  grow_ok grow -> wf b ->
+  read_poll grow junk false false b cs max patience = RCancelled b' rest ->
+  exists k pre, patience = Some k /\ before_stall k cs = Some (pre, rest) /\
+    b_len b' = capacity b' /\
+    firstn (length (contents b) + length pre) (contents b') = contents b ++ pre /\
+    (length (contents b) + length pre < length (contents b'))%nat.
+Proof. exact BuffersProofs.unguarded_cancel_shows_junk. Qed.
+
+Theorem unguarded_cancel_refuted :
+  exists b cs max k, wf b /\
+    ~ poll_spec (contents b) cs max (Some k) (read_poll grow_vec (junk_of []) false false b cs max (Some k)).
+Proof. exact BuffersProofs.unguarded_cancel_refuted. Qed.
+
+(** [read_to_end_or_max] is transcribed a second time in Model/Http1Read.v ([rtem_reserve], [rtem_loop]:
+    the buffer as (bytes, capacity), the reader as a byte string with a delivery schedule behind [Take]),
+    where C02/C07/C20 use it.  The two transcriptions are the same function: the inner [reserve] picks
+    the same capacity, ... *)
+Theorem read_reserve_transcriptions_agree : forall growH growB junk (read : nat) (b : buf),
+  grows_agree growH growB -> grow_ok growB -> b_len b = capacity b -> (read <= capacity b)%nat ->
+  exists b2, rtm_reserve growB junk read b = Ok b2 /\
+             capacity b2 = Http1Read.rtem_reserve growH read (capacity b) /\
+             b_len b2 = capacity b2 /\ (read + 32 <= capacity b2)%nat /\
+             firstn (capacity b) (b_data b2) = b_data b.
+Proof. exact rtem_reserve_is_rtm_reserve. Qed.
+
+(** ... the loops give the same answer from corresponding states, whatever the fuel, the reader's
+    data, its schedule (every burst delivers something) and the way it ends (closes / stalls until
+    the caller's timeout / fails), ... *)
+Theorem read_loop_transcriptions_agree : forall growH growB junk mode (max : nat),
+  grows_agree growH growB -> grow_ok growB ->
+  forall fuel buf cap tl d sched b cs,
+  Http1Read.sched_pos sched ->
+  b_len b = capacity b -> capacity b = cap -> firstn (length buf) (b_data b) = buf -> (length buf < cap)%nat ->
+  translates cs mode d sched tl ->
+  same_answer (Http1Read.rtem_loop growH fuel mode max buf cap tl (Http1Read.mk_reader d sched))
+              (rtm_loop growB junk true fuel (N.of_nat max) (length buf) b cs (Some 0%nat)).
+Proof. exact loops_in_lockstep. Qed.
+
+(** ... and what [Http1Body::read_to_bytes] does with the helper -- [with_capacity(len)], the bytes read
+    with the head copied in, [read_to_end_or_max(.., take(left), len)] under a timeout -- is [read_poll]
+    on the translated reader with a caller that drops the future at the first [Pending]. *)
+Theorem read_to_bytes_uses_read_poll : forall growH growB junk mode early cl limit d sched,
+  grows_agree growH growB -> grow_ok growB -> Http1Read.sched_pos sched ->
+  let len := N.to_nat (N.min cl limit) in
+  let buf := firstn len early in
+  (length buf < len)%nat ->
+  same_answer (Http1Read.read_to_bytes growH mode early cl limit (Http1Read.mk_reader d sched))
+              (read_poll growB junk false true (bm_of junk buf (len - length buf))
+                 (strm mode d sched (len - length buf)) (N.of_nat len) (Some 0%nat)).
+Proof. exact read_to_bytes_is_read_poll. Qed.
+
 (** kvarn::read::file: the whole file for every chunking; [None] exactly when a read fails. *)
 Theorem read_file_whole : forall grow junk (chunks : list bytes),
   grow_ok grow -> N.of_nat (length (concat chunks)) < u64_max ->
@@ -74,9 +171,46 @@ Theorem read_file_complete : forall grow junk (cs : stream),
   match snd (pre_fail cs) with None => Ok (fst (pre_fail cs)) | Some _ => Err 0 end.
 Proof. exact read_file_spec. Qed.
 
+(** [file] / [file_cached] / [file_cached_with_mtime] over any history of file changes and reads
+    through one [FileCache] or past it: reading through [read_to_end_or_max] into a [BytesMut]
+    answers exactly as reading the files' contents directly would ... *)
+Theorem files_transparent : forall grow junk now (ops : list fop),
+  grow_ok grow -> Forall op_small ops ->
+  files_run (fs_read grow junk) now [] [] ops = files_run fs_content now [] [] ops.
+Proof. exact files_transparent_lemma. Qed.
+
+(** ... and every answer is what the file held (bytes and modification time) at some moment of the
+    history up to the read -- at the moment of the read itself when no cache is passed. *)
+Theorem files_answers_are_file_contents : forall grow junk now (ops : list fop) (rs : list fres),
+  grow_ok grow -> Forall op_small ops ->
+  files_run (fs_read grow junk) now [] [] ops = Ok rs -> answers_ok [] [] ops rs.
+Proof. exact files_history_spec. Qed.
+
+(** One call: a cached entry answers whatever the file holds now; a miss of the caching variants
+    answers with the file as it is now and caches exactly that ([None] exactly when it could not be read). *)
+Theorem file_cached_hit : forall reader now v fs p c opt,
+  alookup p c = Some opt ->
+  fc_read reader now v fs p (Some c) =
+  Ok (match opt with
+      | None => None
+      | Some (m, d) => Some (d, match v with VCachedMtime => Some m | _ => None end)
+      end, Some c).
+Proof. exact fc_read_hit. Qed.
+
+Theorem file_cached_miss : forall now v fs p c,
+  alookup p c = None -> v <> VFile ->
+  exists m0,
+  fc_read fs_content now v fs p (Some c) =
+  Ok (match content_of fs p with
+      | None => (None, Some ((p, None) :: c))
+      | Some d => (Some (d, match v with VCachedMtime => Some m0 | _ => None end), Some ((p, Some (m0, d)) :: c))
+      end) /\ (forall d, content_of fs p = Some d -> fs_stat fs p = Some m0).
+Proof. exact fc_read_miss. Qed.
+
 (** None of the results depends on uninitialised memory: neither on fresh allocations
     ([j1] vs [j2]) nor on what lies behind the length of the buffers handed in
-    ([b1] vs [b2] with equal visible contents). *)
+    ([b1] vs [b2] with equal visible contents) -- for the stream helper also when the reader
+    pends and when the caller drops the future. *)
 Theorem no_junk : forall grow j1 j2, grow_ok grow ->
   (forall c writes, wb_session grow j1 c writes = wb_session grow j2 c writes) /\
   (forall checked b1 b2 s e rep, wf b1 -> wf b2 -> fits b1 rep -> contents b1 = contents b2 ->
@@ -85,8 +219,8 @@ Theorem no_junk : forall grow j1 j2, grow_ok grow ->
      | Panic, Panic => True
      | _, _ => False
      end) /\
-  (forall b1 b2 cs max, wf b1 -> wf b2 -> contents b1 = contents b2 -> capacity b1 = capacity b2 ->
-     same_obs (read_to_end_or_max grow j1 false b1 cs max) (read_to_end_or_max grow j2 false b2 cs max)) /\
+  (forall b1 b2 cs max patience, wf b1 -> wf b2 -> contents b1 = contents b2 -> capacity b1 = capacity b2 ->
+     same_obs (read_poll grow j1 false true b1 cs max patience) (read_poll grow j2 false true b2 cs max patience)) /\
   (forall cs, N.of_nat (stream_len cs) < u64_max -> read_file grow j1 cs = read_file grow j2 cs).
 Proof. exact no_junk_lemma. Qed.
 
@@ -164,3 +298,60 @@ Example read_ex_full_buffer :
 Proof. vm_compute. split; reflexivity. Qed.
 Example read_file_ex : read_file grow_vec (junk_of []) (data_stream [B "hel"; B "lo"]) = Ok (B "hello").
 Proof. vm_compute. reflexivity. Qed.
+
+Example vec_growth_policies_agree : grows_agree Http1Read.vec_grow grow_vec.
+Proof. exact vec_grows_agree. Qed.
+Example read_to_bytes_link_ex :
+  same_answer (Http1Read.read_to_bytes Http1Read.vec_grow 1 (B "he") 9 100 (Http1Read.mk_reader (B "llo") [2%nat; 1%nat]))
+              (read_poll grow_vec (junk_of []) false true (bm_of (junk_of []) (B "he") 7)
+                 (strm 1 (B "llo") [2%nat; 1%nat] 7) 9 (Some 0%nat))
+  /\ Http1Read.read_to_bytes Http1Read.vec_grow 1 (B "he") 9 100 (Http1Read.mk_reader (B "llo") [2%nat; 1%nat]) = Err Http1Read.E_TIMEDOUT.
+Proof. vm_compute. auto. Qed.
+
+Example writeable_counts_ex :
+  wb_session_n grow_vec (junk_of (B "JUNK")) (WCap 3) [B "ab"; B "cde"; []; B "f"] = Ok (B "abcdef", 6%nat).
+Proof. vm_compute. reflexivity. Qed.
+Example replace_ex_ref :
+  option_map cow_bytes
+    (match cow_replace_c grow_vec (junk_of (B "JUNK")) true (CRef (B "0123456")) 2 4 (B "XXXXX")
+     with Ok c => Some c | _ => None end) = Some (B "01XXXXX456").
+Proof. vm_compute. reflexivity. Qed.
+Example replace_chain_ex :
+  option_map cow_bytes
+    (match cow_edits grow_vec (junk_of (B "JUNK")) true (CRef (B "0123456")) [(2, 4, B "XXXXX"); (0, 1, []); (9, 9, B "!")]
+     with Ok c => Some c | _ => None end) = Some (B "1XXXXX456!")
+  /\ cow_wf (CRef (B "0123456")) /\ fits_edits (B "0123456") [(2, 4, B "XXXXX"); (0, 1, []); (9, 9, B "!")].
+Proof. split; [vm_compute; reflexivity|]. split; [exact I|]. vm_compute. repeat split; intros; discriminate. Qed.
+(** a reader that pends twice and a caller that waits: everything arrives *)
+Example read_ex_pending :
+  match read_poll grow_vec (junk_of (B "JUNK")) false true (bm_of (junk_of (B "JUNK")) (B "in") 0)
+          [Data (B "abc"); Pend; Pend; Data (B "de")] 1000 None with
+  | RDone b rest => (contents b, fst (pre_fail rest)) = (B "inabcde", [])
+  | _ => False
+  end.
+Proof. vm_compute. reflexivity. Qed.
+(** a caller whose patience ends at the second Pending: the buffer holds what was delivered, nothing else *)
+Example read_ex_cancelled :
+  match read_poll grow_vec (junk_of (B "JUNK")) false true (bm_of (junk_of (B "JUNK")) (B "in") 0)
+          [Data (B "abc"); Pend; Data (B "d"); Pend; Data (B "e")] 1000 (Some 1%nat) with
+  | RCancelled b rest => (contents b, rest) = (B "inabcd", [Data (B "e")])
+  | _ => False
+  end.
+Proof. vm_compute. reflexivity. Qed.
+(** the same input on the code before the drop guard: 1026 bytes are visible, 1020 of them were never written *)
+Example read_ex_cancelled_unguarded :
+  match read_poll grow_vec (junk_of (B "JUNK")) false false (bm_of (junk_of (B "JUNK")) (B "in") 0)
+          [Data (B "abc"); Pend; Data (B "d"); Pend; Data (B "e")] 1000 (Some 1%nat) with
+  | RCancelled b rest => (length (contents b), firstn 8 (contents b)) = (1026%nat, B "inabcd" ++ B "NN")
+  | _ => False
+  end.
+Proof. vm_compute. reflexivity. Qed.
+Example files_ex :
+  files_run (fs_read grow_vec (junk_of [])) 0 [] []
+    [FWrite 1 [Data (B "one")] 10; FRead VCachedMtime 1 true; FWrite 1 [Data (B "two")] 20; FRead VCached 1 true;
+     FRead VCachedMtime 1 false; FRead VFile 2 true; FWrite 3 [Fail 21] 5; FRead VCached 3 true]
+  = Ok [Some (B "one", Some 10); Some (B "one", None); Some (B "two", Some 20); None; None].
+Proof. vm_compute. reflexivity. Qed.
+Example files_ex_small :
+  Forall op_small [FWrite 1 [Data (B "one")] 10; FRead VCachedMtime 1 true; FWrite 3 [Fail 21] 5; FRead VCached 3 true].
+Proof. repeat constructor; vm_compute; reflexivity. Qed.
